@@ -673,8 +673,31 @@ def _worker(scratch, fin, fout):
     pickle.dump(out, open(fout, 'wb'))
 
 
+def layout_case():
+    """finding F32: the points of a 1-D vector evaluation given in DECREASING order as a reversed view (negative stride); the output is the
+    first n entries of a longer array whose tail holds guard values"""
+    knots = np.array([0.0, 0.0, 0.0, 0.0, 1.0, 2.0, 3.5, 5.0, 6.0, 8.0, 8.0, 8.0, 8.0])
+    coeffs = np.sin(1.3 * np.arange(len(knots) - 4))
+    pts = np.array([0.25, 1.5, 2.75, 4.0, 5.5, 7.75])
+    return knots, 3, coeffs, pts
+
+
+def _layout_worker(scratch, fout):
+    sys.path.insert(0, scratch)
+    import warnings
+    warnings.simplefilter('ignore')
+    variant = load_reference(scratch, want_ext=True)
+    knots, deg, coeffs, pts = layout_case()
+    n = len(pts)
+    big = np.full(n + 4, -777.0)
+    variant['spline_eval_funcs'].nu_eval_spline_1d_vector(pts[::-1], knots, deg, coeffs, big[:n], 0)
+    pickle.dump({'values': big[:n].tolist(), 'guards': big[n:].tolist()}, open(fout, 'wb'))
+
+
 if __name__ == '__main__':
     if len(sys.argv) == 5 and sys.argv[1] == '--worker':
         _worker(sys.argv[2], sys.argv[3], sys.argv[4])
+    elif len(sys.argv) == 4 and sys.argv[1] == '--layout-worker':
+        _layout_worker(sys.argv[2], sys.argv[3])
     else:
         print(__doc__)
